@@ -12,7 +12,8 @@ def mc(prop, tier):
     small = ("MC_RankSel", "MC_RankSel_small.cfg", ["MC_RankSel.Build", "MC_RankSel.Reload", "MC_RankSel.Query"])
     rank = [("MC_RankDesign", "MC_RankDesign_q.cfg", ["MC_RankDesign.Build"])] if q else \
         [("MC_RankDesign", "MC_RankDesign_t.cfg", ["MC_RankDesign.Build"]),
-         ("MC_RankDesign", "MC_RankDesign_t2.cfg", ["MC_RankDesign.Build"])]
+         ("MC_RankDesign", "MC_RankDesign_t2.cfg", ["MC_RankDesign.Build"]),
+         ("MC_RankDesign", "MC_RankDesign_t3.cfg", ["MC_RankDesign.Build"])]
     if prop == "C01":
         return [small] + rank
     if prop == "C02":
@@ -32,11 +33,12 @@ def mc(prop, tier):
 
 def exports(prop, tier):
     q = tier == "quick"
-    if prop == "C01":
-        return [("tlc", "MC_RankSel", "MC_RankSel_exp_rank_q.cfg" if q else "MC_RankSel_exp_rank_t.cfg")]
-    if prop == "C02":
-        return [("tlc", "MC_RankSel", "MC_RankSel_exp_select_q.cfg" if q else "MC_RankSel_exp_select_t.cfg")]
-    return []
+    w = {"C01": "rank", "C02": "select"}.get(prop)
+    if not w:
+        return []
+    if q:
+        return [("tlc", "MC_RankSel", "MC_RankSel_exp_%s_q.cfg" % w)]
+    return [("tlc", "MC_RankSel", "MC_RankSel_exp_%s_t.cfg" % w), ("tlc4", "MC_RankSel", "MC_RankSel_exp_%s_t4.cfg" % w)]
 
 
 def episodes(prop, tier, seed):
